@@ -75,7 +75,11 @@ func c09Enumerate(tier string, emit func(*eng.Case)) {
 		maxE = 3
 	}
 	for _, url := range []string{"", "http://example.com/a/b/story.html"} {
-		ora.EnumDocs(starts, alpha, maxE, func(d *ora.DocModel, edits int) {
+		e := maxE
+		if tier == "thorough" && url == "" {
+			e = maxE - 1 // the third edit only with a page URL (the richer path: links and images get resolved)
+		}
+		ora.EnumDocs(starts, alpha, e, func(d *ora.DocModel, edits int) {
 			own(caseFromModel("views", d, atoms, url))
 		})
 	}
@@ -162,7 +166,7 @@ func init() {
 	eng.Register(&eng.Prop{
 		ID:        "C09",
 		DesignRef: "§5 C09",
-		Rule: "docspace BFS from S1,S2 with <= 2 (quick) / <= 3 (thorough) insertions over 39 atoms covering every element kind (images with src+srcset, relative URLs, lazy images, picture, tables with images, figures, embeds, punctuation), with and without page URL; " +
+		Rule: "docspace BFS from S1,S2 with <= 2 (quick) / <= 3 (thorough) insertions over 39 atoms covering every element kind (images with src+srcset, relative URLs, lazy images, picture, tables with images, figures, embeds, punctuation), with and without page URL (thorough: the third insertion only with page URL); " +
 			"plus the title-less text-only sub-space (18 atoms, including a sidebar-classed link cluster so that the two extraction passes differ) for the WordCount clause." + crossRule + " Oracle: words(Text) == words(visible text of result.Node) outside embed placeholders; ContentImages is an in-order subsequence of the HTML's img/source src+srcset candidates; WordCount == |words(Text)| in the text-only sub-space when Title is empty. " +
 			"Non-trivial = some text dropped, >= 20 words kept and (images listed or word-count clause applies).",
 		Enumerate: c09Enumerate,
